@@ -307,7 +307,36 @@ def check(ctx, parts=('cursor', 'store', 'index', 'guards', 'atomic', 'tobytes',
         ctx.violation('R8-fill-default', init, 'fill defaults to %s' % (canon(init_fill) if init_fill is not None else '?'), "the default fill is not b'.'", init.node.lineno, clause='5')
     if 'guards' in parts:
         ctx.floor('decision table rows of Fragments.insert', ctx.units.get('decision_table_rows', 0), 30)
+        check_buffer_per_pack(ctx)
     ctx.trust(*ASSUMPTIONS)
+
+
+def check_buffer_per_pack(ctx):
+    """the rules above describe one buffer filled by one pack: Packet.pack hands pack_impl a buffer
+    made for that call.  A buffer kept between calls is shared by every pack that is running --
+    a pack that starts while another is in progress (a descriptor or a size callable that packs a
+    sub-packet, another thread) wipes or interleaves the chunks of the first"""
+    repo = ctx.repo
+    rule = 'R8-buffer-per-pack'
+    pk = repo.cls('Packet')
+    fi = pk.methods.get('pack')
+    if fi is None:
+        raise Undecided('anchor Packet.pack not found')
+    n = 0
+    for p in repo.walker().paths(fi.node, cls=pk):
+        for e in p.effects:
+            if e.kind == 'call' and isinstance(e.call.func, ast.Attribute) and e.call.func.attr == 'pack_impl':
+                a = e.call.args[0] if e.call.args else next((k.value for k in e.call.keywords if k.arg == 'fragments'), None)
+                n += 1
+                st = 'Packet.pack: pack_impl(%s, ...)' % (canon(a) if a is not None else None)
+                if isinstance(a, ast.Call) and (call_name(a) or '').split('.')[-1] == 'Fragments':
+                    ctx.holds(rule, fi, st, 'a buffer of its own for every pack', e.lineno, clause='1')
+                elif isinstance(a, ast.Name) and repo.module_level_name(fi.module, a.id):
+                    ctx.violation(rule, fi, st, 'one buffer kept at module level serves every pack: a pack that runs while another is in progress (a callable that packs a sub-packet, another thread) clears or mixes the chunks of the first', e.lineno, clause='1', witness=True)
+                else:
+                    ctx.undecided(rule, fi, st, 'cannot see that the buffer is made for this call', e.lineno, clause='1')
+    if not n:
+        ctx.undecided(rule, fi, 'Packet.pack', 'no pack_impl call found', fi.node.lineno, clause='1')
 
 
 def check_tobytes(ctx, repo, fr, tob, CM):
